@@ -355,6 +355,17 @@ def run_alias(spec, acc, api):
                 acc.count('shadow_checks', 2)
                 if r1 != 'global-wins' or r2 != 'local-wins':
                     acc.violation('builtin-shadowing', f'{alias}: global->{r1!r} local->{r2!r}', {'alias': alias})
+                # ... also when the binding is null (a host disabling the name, a script doing `round = null`) or not a function
+                for where, kw in (('global', {'globals': {**g, alias: None}}), ('local', {'globals': dict(g)})):
+                    try:
+                        r3 = evaluate_expression(expr, kw, {alias: None} if where == 'local' else None, True)
+                        acc.violation('builtin-wins-over-null-binding', f'{alias} bound to null in {where}s: {r3!r} instead of an undefined-function error', {'alias': alias})
+                    except rt_err:
+                        acc.count('shadow_checks')
+                r4 = evaluate_expression(expr, {'globals': {**g, alias: 'text'}}, None, True)
+                acc.count('shadow_checks')
+                if r4 is not None and alias != 'if':
+                    acc.violation('builtin-wins-over-non-function-binding', f'{alias} bound to a string: {r4!r}', {'alias': alias})
     acc.sample({'alias_table_checked': dict(list(sorted(ALIASES.items()))[:6])}, limit=1)
 
 
